@@ -167,6 +167,7 @@ def handle (c obs : String) : String × Bool × String :=
               | none => fmtDResult mask (execD O false f t q)), inputsOkD q,
             !Ref.hasReductionD q && (Ref.semD O false f t q).isNone, xMustRejectD f t q)
         | .tw .. => ("bad-case", false, false, false)
+      let model := rejectProj model obs
       if !inputsOk then (model, true, "inputs not schema-conforming: property does not apply")
       else match parseObs obs with
         | none => (model, false, "observation not in the protocol format (plan-time panic or malformed)")
